@@ -1,6 +1,7 @@
 import AscentVerif.Proofs.UFRefine
 import AscentVerif.Proofs.TrRelSimple
 import AscentVerif.Proofs.TrRelComplete
+import AscentVerif.Proofs.TrRelCollapseCount
 /-!
 # C18 — public union-find structures agree with a reference closure after any history
 
@@ -257,44 +258,59 @@ example : ∃ u' w, sample.union 1 2 = .ok (u', w) ∧ WF u' ∧ Same u'.elems w
 end AscentVerif.UF
 
 /-!
-## Part (b): `TrRelUnionFind` (trrel_union_find.rs) — partial
+## Part (b): `TrRelUnionFind` (trrel_union_find.rs) — full strength
 
-Full-strength statement (NOT proved here; established only by tie C — exhaustive histories of up
-to 4 `add`s over 4 elements and random ones — against the Floyd–Warshall oracle):
-```
-theorem tr_contains_iff (ps) : ∃ t, run {} ps = .ok t ∧ t.disjointInvariant ∧ t.connectionsDominant ∧
-    ∀ x y, (t.contains x y = .ok true ↔ Closure ps x y) ∧ (t.contains x y = .ok false ↔ ¬ Closure ps x y)
-```
-together with the corresponding statements for `iter_all`, `set_of`, `rev_set_of`, `count_exact`.
+**Main theorem `tr_contains_iff`** (all histories, including back-edge collapses through
+`merge_multiple` and adds after collapses): for every list `ps` of added pairs, the model runs the
+whole history from the empty structure without panic (no failed `unwrap`, no `assert!(from != s)`,
+no failing `assert_disjoint_invariant`, no index out of range, and the fuel of
+`get_dominant_id{,_mut}` — i.e. the Rust recursion through `set_subsumptions` — always suffices),
+the final state passes `assert_disjoint_invariant` and `assert_set_connections_dominant_sets`, and
+`contains x y` evaluates without panic to `true` exactly when `(x, y)` is in the reflexive
+transitive closure of the added pairs on mentioned elements, and to `false` exactly when it is not.
 
-What is proved — everything about `contains` for histories **without a class collapse**:
+The proof goes through the invariant `Inv t ps` (`Proofs/TrRelCollapseInv.lean`), which speaks
+about DOMINANT set ids: `set_subsumptions` is a forest whose depth is covered by the fuel, dominated
+sets are empty and appear in no connection map, every element's `elem_ids` entry leads to the
+dominant set that contains it, the sets are pairwise disjoint, the classes are exactly the strongly
+connected components of the added pairs, and OFF THE DIAGONAL `set_connections` holds exactly the
+pairs of distinct dominant ids whose elements are connected, `reverse_set_connections` being its
+mirror image.  ON THE DIAGONAL both maps may hold junk: `s ∈ set_connections[s]` is created by
+`add(x, x)` on a new element and by `merge_multiple` (second `for s in [from, to]` round, `z = from`),
+and it is NOT always mirrored (e.g. after `add(1,2); add(2,1)`: `set_connections = {1: {1}}`,
+`reverse_set_connections = {1: {}}`); every query filters the diagonal, so this is harmless.
 
-* `tr_acyclic_run_ok`, `tr_acyclic_contains_iff` (unconditional): if no added pair `(x, y)` closes a
-  cycle over the pairs added before it (`x = y` or `y` does not yet reach `x`), then the model
-  runs the whole history without panic (in particular `assert_disjoint_invariant` never fires
-  and `add_set_connection` has no panicking path at all), no class is ever collapsed, and at the
-  end `contains x y` evaluates without panic to `true` **iff** `(x, y)` is in the reflexive
-  transitive closure of the added pairs on mentioned elements;
-* `tr_contains_iff_partial`, `tr_contains_refl_partial`, `tr_contains_added_partial`,
-  `tr_contains_sound_partial`: the same conclusions for any history that the model ran without
-  panic and whose final state has no subsumption (`t.subs = []`; by
-  `tr_collapse_records_subsumption` and `tr_subsumptions_persist` this says exactly that no
-  collapse happened anywhere in the history);
-* `tr_addNodeNew_inv_partial`, `tr_add_inv_partial`, `tr_add_exact_partial`: the invariants
-  (`SoundFor`: no subsumptions, every set is the singleton of its element, an element has an id iff
-  it was mentioned, every stored connection is justified by a path of added pairs, every added
-  pair is stored, `assert_disjoint_invariant` holds; `ExactFor`: additionally the two maps
-  mirror each other and `set_connections` is transitively closed) are preserved by
-  `add_node_new` and by `add` in every branch but the back-edge collapse;
-* `tr_addSetConnection_exact`: the heart of the data structure — on a closed, mirrored state
-  without the back edge, `add_set_connection(f, to)` leaves **exactly**
-  `C ∪ ({f} ∪ pred f) × ({to} ∪ succ to)` in both maps (the `difference` shortcuts
-  `new_to_connections` / `new_from_reverse_connections` are justified by closedness).
+* `tr_inv_empty`, `tr_addNodeNew_inv`, `tr_add_inv`, `tr_run_inv`: the invariant holds initially and
+  is preserved (with panic-freedom) by `add_node_new`, by `add` in every branch, and by whole histories;
+* `tr_collapse_run`: the collapse branch never panics, with its intermediate states described
+  (`PrepPost`: the deliberately de-mirrored state after the four `keep_difference` / `remove`
+  statements; `ConnPost`: after `add_set_connection` on it; `MergePost`: after `merge_multiple`,
+  whose four fixing loops, absorbing loop and final clean-up are characterised exactly in
+  `Proofs/TrRelCollapseMerge.lean`); the sets in `to_be_merged` are exactly the dominant ids on a
+  cycle through the new edge (`CollapseCtx.cyc_reach`, `CollapseCtx.cyc_of_reach`);
+* `tr_contains_of_inv`: on any state satisfying the invariant `contains` decides the closure.
 
-Missing for the full statement: the collapse branch (`merge_multiple`; the invariant must speak
-about dominant ids through `set_subsumptions`, with a termination argument for the fuel of
-`get_dominant_id`, and absence of panics in its `unwrap`s), and the statements for
-`iter_all` / `set_of` / `rev_set_of` / `count_exact` (which read the same maps as `contains`).
+The statements proved earlier for collapse-free histories (`…_partial`, `tr_acyclic_…`,
+`tr_addSetConnection_exact`) are kept below; they are now special cases.
+
+The derived queries are proved for all histories too, INCLUDING multiplicities (the invariant also
+records that all maps have pairwise different keys and all stored sets pairwise different members —
+what `HashMap` / `HashSet` guarantee by construction but the list model does not):
+
+* `tr_set_of` / `tr_rev_set_of`: `set_of x` / `rev_set_of x` never panic; they answer `None` exactly
+  for unmentioned `x`, and otherwise enumerate — each element exactly once — the successors /
+  predecessors of `x` in the closure, `x` included;
+* `tr_iter_all`: `iter_all` never panics and enumerates exactly the pairs of the closure, each
+  exactly once (so as a multiset it IS the closure; only the order is unspecified — in Rust it is
+  the hash-map iteration order, in the model insertion order);
+* `tr_count_exact`: `count_exact` never panics and returns the number of closure pairs (the length
+  of any duplicate-free enumeration of them, in particular of the `iter_all` result:
+  `tr_count_exact_eq_iter_all`).
+
+Nothing of part (b) is left unproved.  Model-fidelity remarks: hash maps / sets are lists in
+insertion order, so statements are up to order; `Itertools::dedup` in `get_set_connections` (drops
+only CONSECUTIVE duplicates) is harmless because the stored sets are duplicate-free and mention
+dominant ids only (`dedupConsecutive_of_nodup`).
 -/
 namespace AscentVerif.TrRel
 
@@ -389,6 +405,89 @@ theorem tr_acyclic_contains_iff {ps : List (Int × Int)} (h : AcyclicFrom [] ps)
       (t.contains x y = .ok true ↔ Closure ps x y) ∧ (t.contains x y = .ok false ↔ ¬ Closure ps x y) := by
   obtain ⟨t, hr, hs, _⟩ := tr_acyclic_run_ok h
   exact ⟨t, hr, tr_contains_iff_partial hr hs⟩
+
+/-! ### full strength: all histories -/
+
+/-- the empty structure satisfies the invariant for the empty history -/
+theorem tr_inv_empty : Inv {} [] := inv_empty
+
+/-- `add_node_new` never panics under the invariant, keeps it, and returns the dominant set containing the element -/
+theorem tr_addNodeNew_inv {t : TrRel} {ps : List (Int × Int)} (C : Core t ps) (x : Int) :
+    ∃ t' id isNew, t.addNodeNew x = .ok (t', id, isNew) ∧ Core t' ps ∧ Mem t' id x ∧ IsDom t' id ∧
+      (isNew = true ↔ alGet t.elemIds x = none) := by
+  obtain ⟨t', id, isNew, h, C', N⟩ := addNodeNew_core C x
+  exact ⟨t', id, isNew, h, C', N.mem, C'.mem_dom N.mem, N.new_iff⟩
+
+/-- `add` never panics under the invariant (in any branch, including the back-edge collapse) and
+re-establishes it for the extended history -/
+theorem tr_add_inv {t : TrRel} {ps : List (Int × Int)} (I : Inv t ps) (x y : Int) :
+    ∃ t' b, t.add x y = .ok (t', b) ∧ Inv t' (ps ++ [(x, y)]) := add_inv I x y
+
+/-- every history runs without panic and ends in a state satisfying the invariant -/
+theorem tr_run_inv (ps : List (Int × Int)) : ∃ t, run {} ps = .ok t ∧ Inv t ps := by
+  obtain ⟨t, hr, I⟩ := run_inv inv_empty ps
+  simp only [List.nil_append] at I
+  exact ⟨t, hr, I⟩
+
+/-- the collapse branch of `add` never panics; its intermediate states are described by
+`PrepPost` / `ConnPost` / `MergePost`, and the merged sets are `in_between ∪ {y_set}` -/
+theorem tr_collapse_run {t : TrRel} {ps : List (Int × Int)} {x0 y0 : Int} {X Y : Nat} (K : CollapseCtx t ps x0 y0 X Y) :
+    ∃ ta t3 t9 ml tm, (∀ m, m ∈ ml ↔ InM t X Y m) ∧ (∀ m, m ∈ tm ↔ InM t X Y m ∨ m = Y) ∧
+      PrepPost t ta X Y tm ∧ ConnPost ta t3 X Y ∧ ConnLe (GSem t (ps ++ [(x0, y0)])) t3 ∧ MergePost t3 t9 X Y ml ∧
+      collapseBranch t x0 y0 X Y = .ok ({ t9 with elemIds := alSet (alSet t9.elemIds x0 X) y0 X }, true) :=
+  collapse_run K
+
+/-- on any state satisfying the invariant, `contains` never panics and decides the reference closure -/
+theorem tr_contains_of_inv {t : TrRel} {ps : List (Int × Int)} (I : Inv t ps) (x y : Int) :
+    (t.contains x y = .ok true ↔ Closure ps x y) ∧ (t.contains x y = .ok false ↔ ¬ Closure ps x y) :=
+  contains_iff_of_inv I x y
+
+/-- **Main theorem for `TrRelUnionFind`.**  For every history of `add`s: no panic, both self-checks
+hold at the end, and `contains` is exactly the reflexive transitive closure of the added pairs on
+mentioned elements. -/
+theorem tr_contains_iff (ps : List (Int × Int)) : ∃ t, run {} ps = .ok t ∧ t.disjointInvariant ∧ t.connectionsDominant ∧
+    ∀ x y, (t.contains x y = .ok true ↔ Closure ps x y) ∧ (t.contains x y = .ok false ↔ ¬ Closure ps x y) := by
+  obtain ⟨t, hr, I⟩ := tr_run_inv ps
+  exact ⟨t, hr, I.core.disjointInvariant, I.core.connectionsDominant, contains_iff_of_inv I⟩
+
+/-- **`set_of`** after any history: `None` exactly for unmentioned elements, otherwise exactly the
+successors in the closure (the element included), each listed once -/
+theorem tr_set_of (ps : List (Int × Int)) : ∃ t, run {} ps = .ok t ∧ ∀ x,
+    (¬ Mentioned ps x ∧ t.setOf x = .ok none) ∨
+    (Mentioned ps x ∧ ∃ l, t.setOf x = .ok (some l) ∧ l.Nodup ∧ ∀ y, y ∈ l ↔ Closure ps x y) := by
+  obtain ⟨t, hr, I⟩ := tr_run_inv ps
+  exact ⟨t, hr, setOf_spec I⟩
+
+/-- **`rev_set_of`** after any history: `None` exactly for unmentioned elements, otherwise exactly the
+predecessors in the closure (the element included), each listed once -/
+theorem tr_rev_set_of (ps : List (Int × Int)) : ∃ t, run {} ps = .ok t ∧ ∀ x,
+    (¬ Mentioned ps x ∧ t.revSetOf x = .ok none) ∨
+    (Mentioned ps x ∧ ∃ l, t.revSetOf x = .ok (some l) ∧ l.Nodup ∧ ∀ y, y ∈ l ↔ Closure ps y x) := by
+  obtain ⟨t, hr, I⟩ := tr_run_inv ps
+  exact ⟨t, hr, revSetOf_spec I⟩
+
+/-- **`iter_all`** after any history enumerates exactly the pairs of the closure, each exactly once -/
+theorem tr_iter_all (ps : List (Int × Int)) : ∃ t l, run {} ps = .ok t ∧ t.iterAll = .ok l ∧ l.Nodup ∧
+    ∀ p, p ∈ l ↔ Closure ps p.1 p.2 := by
+  obtain ⟨t, hr, I⟩ := tr_run_inv ps
+  obtain ⟨l, hl, hnd, hm⟩ := iterAll_spec I
+  exact ⟨t, l, hr, hl, hnd, hm⟩
+
+/-- **`count_exact`** after any history is the number of closure pairs: the length of a duplicate-free
+list enumerating exactly the pairs of the closure -/
+theorem tr_count_exact (ps : List (Int × Int)) : ∃ t, run {} ps = .ok t ∧
+    ∃ L : List (Int × Int), L.Nodup ∧ (∀ p, p ∈ L ↔ Closure ps p.1 p.2) ∧ t.countExact = .ok L.length := by
+  obtain ⟨t, hr, I⟩ := tr_run_inv ps
+  exact ⟨t, hr, countExact_spec I⟩
+
+/-- … in particular `count_exact` = number of pairs yielded by `iter_all` -/
+theorem tr_count_exact_eq_iter_all (ps : List (Int × Int)) : ∃ t l, run {} ps = .ok t ∧ t.iterAll = .ok l ∧
+    t.countExact = .ok l.length := by
+  obtain ⟨t, hr, I⟩ := tr_run_inv ps
+  obtain ⟨l, hl, hnd, hm⟩ := iterAll_spec I
+  obtain ⟨L, hLnd, hLm, hc⟩ := countExact_spec I
+  have hp : L.Perm l := (List.perm_ext_iff_of_nodup hLnd hnd).mpr fun p => (hLm p).trans (hm p).symm
+  exact ⟨t, l, hr, hl, by rw [hc, hp.length_eq]⟩
 
 /-! ### non-vacuity -/
 
@@ -504,6 +603,76 @@ example : ∃ t' b, (match run {} [(1, 2), (2, 1)] with | .ok t => t | .panic =>
   | panic => exact absurd he (by decide)
   | ok r => exact ⟨r.1, r.2, rfl, tr_subsumptions_persist (by decide) he⟩
 
+/-! ### non-vacuity of the full-strength theorems -/
+
+/-- a history with two collapses (one through `in_between`), adds after a collapse, and a self pair -/
+def cycHistory : List (Int × Int) := [(1, 2), (2, 3), (3, 1), (4, 5), (5, 4), (6, 6), (1, 4), (4, 3), (7, 1)]
+
+example : ∃ t, run {} cycHistory = .ok t ∧ t.disjointInvariant ∧ t.connectionsDominant ∧
+    ∀ x y, (t.contains x y = .ok true ↔ Closure cycHistory x y) ∧ (t.contains x y = .ok false ↔ ¬ Closure cycHistory x y) :=
+  tr_contains_iff cycHistory
+
+/-- the history really collapses: four subsumptions are recorded -/
+example : (match run {} cycHistory with | .ok t => t.subs.length | .panic => 0) = 4 := by decide
+
+/-- … and through the theorem: 5 reaches 2 (only via the collapsed cycle), 1 does not reach 7 -/
+example : Closure cycHistory 5 2 := by
+  obtain ⟨t, hr, _, _, h⟩ := tr_contains_iff cycHistory
+  have ht : t = (match run {} cycHistory with | .ok t => t | .panic => {}) := by rw [hr]
+  exact (h 5 2).1.mp (by rw [ht]; decide)
+
+example : ¬ Closure cycHistory 1 7 := by
+  obtain ⟨t, hr, _, _, h⟩ := tr_contains_iff cycHistory
+  have ht : t = (match run {} cycHistory with | .ok t => t | .panic => {}) := by rw [hr]
+  exact (h 1 7).2.mp (by rw [ht]; decide)
+
+example : Inv {} [] := tr_inv_empty
+
+example : ∃ t, run {} cycHistory = .ok t ∧ Inv t cycHistory := tr_run_inv cycHistory
+
+/-- the collapse context is inhabited: after `add(1,2)`, the pair `(2,1)` is a back edge between sets 1 and 0 -/
+example : ∃ t, run {} [(1, 2)] = .ok t ∧ CollapseCtx t [(1, 2)] 2 1 1 0 := by
+  obtain ⟨t, hr, I⟩ := tr_run_inv [(1, 2)]
+  have ht : t = (match run {} [(1, 2)] with | .ok t => t | .panic => {}) := by rw [hr]
+  refine ⟨t, hr, I.core, ?_, ?_, by decide, ?_⟩
+  · rw [ht]; exact ⟨[2], by decide, by decide⟩
+  · rw [ht]; exact ⟨[1], by decide, by decide⟩
+  · rw [ht]; exact ⟨[1], by decide, by decide⟩
+
+/-- the diagonal junk is real and not mirrored: after `add(1,2); add(2,1)` -/
+example : (match run {} [(1, 2), (2, 1)] with | .ok t => (t.conn, t.rconn) | .panic => ([], [])) = ([(1, [1])], [(1, [])]) := by
+  decide
+
+/-- the derived queries on the collapsing history -/
+example : ∃ t l, run {} cycHistory = .ok t ∧ t.iterAll = .ok l ∧ l.Nodup ∧ ∀ p, p ∈ l ↔ Closure cycHistory p.1 p.2 :=
+  tr_iter_all cycHistory
+
+example : ∃ t l, run {} cycHistory = .ok t ∧ t.iterAll = .ok l ∧ t.countExact = .ok l.length :=
+  tr_count_exact_eq_iter_all cycHistory
+
+/-- on it: 5 elements in one class (25 pairs), `6` alone (1), `7` reaching itself and the class (6) -/
+example : (match run {} cycHistory with | .ok t => t.countExact | .panic => .panic) = .ok 32 := by decide
+
+example : (match run {} cycHistory with | .ok t => t.setOf 7 | .panic => .panic) = .ok (some [3, 2, 1, 5, 4, 7]) := by decide
+
+example : (match run {} cycHistory with | .ok t => t.revSetOf 6 | .panic => .panic) = .ok (some [6]) := by decide
+
+example : (match run {} cycHistory with | .ok t => t.setOf 9 | .panic => .panic) = .ok none := by decide
+
+example : ∃ t, run {} cycHistory = .ok t ∧ ∀ x,
+    (¬ Mentioned cycHistory x ∧ t.setOf x = .ok none) ∨
+    (Mentioned cycHistory x ∧ ∃ l, t.setOf x = .ok (some l) ∧ l.Nodup ∧ ∀ y, y ∈ l ↔ Closure cycHistory x y) :=
+  tr_set_of cycHistory
+
+example : ∃ t, run {} cycHistory = .ok t ∧ ∀ x,
+    (¬ Mentioned cycHistory x ∧ t.revSetOf x = .ok none) ∨
+    (Mentioned cycHistory x ∧ ∃ l, t.revSetOf x = .ok (some l) ∧ l.Nodup ∧ ∀ y, y ∈ l ↔ Closure cycHistory y x) :=
+  tr_rev_set_of cycHistory
+
+example : ∃ t, run {} cycHistory = .ok t ∧
+    ∃ L : List (Int × Int), L.Nodup ∧ (∀ p, p ∈ L ↔ Closure cycHistory p.1 p.2) ∧ t.countExact = .ok L.length :=
+  tr_count_exact cycHistory
+
 end AscentVerif.TrRel
 
 /-! ## axiom audit (only `propext`, `Classical.choice`, `Quot.sound` may appear) -/
@@ -531,3 +700,15 @@ end AscentVerif.TrRel
 #print axioms AscentVerif.TrRel.tr_contains_iff_partial
 #print axioms AscentVerif.TrRel.tr_acyclic_run_ok
 #print axioms AscentVerif.TrRel.tr_acyclic_contains_iff
+#print axioms AscentVerif.TrRel.tr_inv_empty
+#print axioms AscentVerif.TrRel.tr_addNodeNew_inv
+#print axioms AscentVerif.TrRel.tr_add_inv
+#print axioms AscentVerif.TrRel.tr_run_inv
+#print axioms AscentVerif.TrRel.tr_collapse_run
+#print axioms AscentVerif.TrRel.tr_contains_of_inv
+#print axioms AscentVerif.TrRel.tr_contains_iff
+#print axioms AscentVerif.TrRel.tr_set_of
+#print axioms AscentVerif.TrRel.tr_rev_set_of
+#print axioms AscentVerif.TrRel.tr_iter_all
+#print axioms AscentVerif.TrRel.tr_count_exact
+#print axioms AscentVerif.TrRel.tr_count_exact_eq_iter_all
